@@ -256,3 +256,7 @@ def rules(ctx):
     symbol_cache(ctx)
     par_convert(ctx)
     c04.dep_key(ctx, "C10.deps")
+    # measured values live in the RegRefs of the programs that were run: a reset must clear all of them, or a later run
+    # evaluates measured parameters with outcomes of the previous computation
+    from . import c09
+    c09.reset_completeness(ctx, "C10.reset")
